@@ -49,7 +49,7 @@ def gen_fn(rng: random.Random, needs_ret: bool = False) -> dict:
     if needs_ret and ann == 'chk' and ret is None:
         ret = 'ok'
     return {'ann': ann, 'hint': rng.choice(list(R.HINTS)), 'ret': ret, 'ntc': rng.random() < 0.12,
-            'pre': rng.random() < 0.15, 'doc': rng.choice([None, 'doc of it', 'D'])}
+            'pre': rng.random() < 0.15, 'doc': rng.choice([None, 'doc of it', 'D']), 'deco': rng.random() < 0.15}
 
 
 def gen_cls(rng: random.Random, name: str, depth: int, maxdepth: int, targets: list[str], has_base: bool) -> dict:
@@ -122,7 +122,7 @@ def gen_case(rng: random.Random, cid: str) -> dict:
 # canonical shape (failure keys, distinctness)
 # ---------------------------------------------------------------------------
 def shape_fn(fn: dict) -> str:
-    return '+'.join([fn['ann']] + (['ntc'] if fn['ntc'] else []) + (['pre'] if fn['pre'] else []))
+    return '+'.join([fn['ann']] + (['ntc'] if fn['ntc'] else []) + (['pre'] if fn['pre'] else []) + (['deco'] if fn.get('deco') else []))
 
 
 def alias_kind(target: str, top: str) -> str:
@@ -183,7 +183,8 @@ def fn_objs(v, kind: str, m: dict):
 def facts_of(f):
     if not isinstance(f, types.FunctionType):
         return None
-    return (f.__name__, f.__qualname__, f.__doc__, str(inspect.signature(f)))
+    return (f.__name__, f.__qualname__, f.__doc__, str(inspect.signature(f)),
+            tuple(sorted((k, repr(v)) for k, v in f.__dict__.items() if not k.startswith('__'))))
 
 
 def snapshot(cls, spec: dict) -> dict:
